@@ -1217,10 +1217,16 @@ def run_server(case) -> CaseResult:
                 wire.append(W.request(info['ptype'], rid, body))
 
             # requests that use a handle another request of the same batch
-            # closes have no modelled outcome
+            # closes have no modelled outcome; nor has a made-up handle when
+            # the same batch opens something (it may be the new handle)
+            opening = any(info.get('opens') for info in sent)
+
             for info in sent:
                 hs = [info['handle']] if 'handle' in info else \
                     info.get('handles', [])
+                if opening and any(hh[1] == 'bogus' for hh in hs) and \
+                        info.get('var') in ('valid', 'trail'):
+                    info['expect'] = None
                 if info.get('var') in ('valid', 'trail') and \
                         any(hh[0] in closing for hh in hs) and \
                         info['op'] != 'CLOSE':
@@ -1490,8 +1496,9 @@ def server_strategy(tier: str):
                      st.tuples(st.just('live'), st.integers(0, 3)),
                      st.tuples(st.just('live'), st.integers(0, 3)),
                      st.tuples(st.just('bogus'),
-                               st.sampled_from([b'', b'\x00\x00\x00\x00',
-                                                b'\x00\x00\x00\x63', b'zz',
+                               st.sampled_from([b'', b'\x00\x00\x00',
+                                                b'\x00\x00\x00\x00\x00',
+                                                b'\xff\xff\xff\xfe', b'zz',
                                                 b'\x00' * 300]))).map(list)
     cut = st.one_of(st.tuples(st.just('b'), st.integers(0, 12)),
                     st.tuples(st.just('o'), st.integers(0, 400))).map(list)
@@ -2005,7 +2012,15 @@ def run_client(case) -> CaseResult:
 
                 if kind in ('ok', 'err', 'wrong', 'okstatus', 'eof') and \
                         c['id'] not in outstanding:
-                    kind = 'dup'
+                    # already answered: take the next caller still waiting
+                    for d in range(1, k):
+                        if calls[(j + d) % k]['id'] in outstanding:
+                            j = (j + d) % k
+                            c = calls[j]
+                            tag = 1000 + j
+                            break
+                    else:
+                        kind = 'dup'
 
                 if kind == 'ok' and c['op'] == 'fread' and \
                         act.get('code', 0) % 3 == 0:
@@ -2051,7 +2066,21 @@ def run_client(case) -> CaseResult:
                                         reply_body(v, wt, tag)))
                     c['state'] = 'badmsg'
                     labels.add('wrong:' + W.TYPE_NAMES.get(wt, 'other'))
-                elif kind in ('unknown', 'dup'):
+                elif kind in ('unknown', 'dup', 'noid'):
+                    if kind == 'noid':
+                        # a packet too short to carry an id answers nobody
+                        wire.append([u32(0), W.frame(STATUS, b''),
+                                     W.frame(ATTRS, b'\x00\x00\x00')]
+                                    [act.get('idoff', 0) % 3])
+                        dead = True
+
+                        for cc in calls:
+                            if cc['id'] in outstanding:
+                                cc['state'] = 'session-error'
+
+                        outstanding.clear()
+                        continue
+
                     if kind == 'dup':
                         if not answered:
                             used_kinds.discard('dup')
@@ -2124,7 +2153,7 @@ def run_client(case) -> CaseResult:
                             'returned %r' % (late.result(),), 'late-call')
 
         nontrivial = 'reordered' in labels or bool(
-            used_kinds & {'wrong', 'okstatus', 'unknown', 'dup'})
+            used_kinds & {'wrong', 'okstatus', 'unknown', 'dup', 'noid'})
         return CaseResult(sorted(labels), nontrivial)
     finally:
         pair.close()
@@ -2144,7 +2173,7 @@ def client_strategy(tier: str):
         action = st.fixed_dictionaries({
             'kind': st.sampled_from(['ok', 'ok', 'ok', 'ok', 'ok', 'err',
                                      'err', 'eof', 'wrong', 'wrong',
-                                     'okstatus', 'unknown', 'dup']),
+                                     'okstatus', 'unknown', 'dup', 'noid']),
             'who': st.integers(0, k - 1), 'code': st.integers(0, 29),
             'wtype': st.integers(0, 14), 'idoff': st.integers(0, 7)})
         # mostly a permutation of the callers, plus noise
@@ -2197,6 +2226,7 @@ FAMILIES = [
                              'reordered', 'coalesced-replies', 'act:ok',
                              'act:err', 'act:eof', 'act:wrong',
                              'act:okstatus', 'act:unknown', 'act:dup',
+                             'act:noid',
                              'session-failed', 'session-closed-by-server',
                              'limits'] +
                      ['call:' + c for c in CALL_NAMES]},
